@@ -42,6 +42,7 @@ Definition value_eqb (a b : value) : bool :=
   | VDim v u, VDim w u' => Qeq_bool v w && N.eqb u u'
   | VKw x, VKw y => str_eqb x y
   | VColor x, VColor y => color_eqb x y
+  | VInt x, VInt y => Z.eqb x y
   | VOther x, VOther y => str_eqb x y
   | _, _ => false
   end.
@@ -70,7 +71,8 @@ Definition computed_len (v : value) : option value :=
   end.
 
 Definition computed_of (name : str) (v : value) : option value :=
-  if (in_table margin_names name || in_table padding_names name)%bool then computed_len v else Some v.
+  if (in_table margin_names name || in_table padding_names name || str_eqb name n_column_width)%bool
+  then computed_len v else Some v.   (* columnWidth, computed_values.go:499 = length *)
 
 Definition tbl_find (tbl : list pentry) (n : str) : option pentry :=
   find (fun e => let 'PE n' _ _ _ := e in str_eqb n' n) tbl.
